@@ -42,6 +42,8 @@ FITS = [0]
 def refit(o, *a, **k):
     """fit; every other time fit a second time with the same arguments: the equivalence is a property of the estimator,
     not of its first fit() (weights multiplied into stored state would compound)"""
+    if FITS[0] % 3 == 0:
+        ec.poke(o)           # displays / diagnostics / plots between specification and fit()
     o.fit(*a, **k)
     if FITS[0] % 2 == 1:      # decided per comparison (see both), the same for the weighted and the replicated run
         o.fit(*a, **k)
